@@ -357,7 +357,7 @@ func main() {
 		chainmc.ReplayFile(run, m)
 		return
 	}
-	run.SetBudget(7*60e9, 40*60e9)
+	run.SetBudget(7*60e9, 20*60e9)
 	decisionTable(run)
 	depth := 7
 	if run.Thorough() {
